@@ -1,4 +1,4 @@
-//! World A driver: supervisor, workers, replay, evidence.
+//! World A: deterministic simulation of rsass over the Loader seam.
 
 mod c02;
 mod c03;
@@ -12,14 +12,7 @@ mod resolve;
 mod simfs;
 mod spec;
 
-use crate::core::*;
-use serde_json::{json, Value as Json};
-use std::collections::{BTreeMap, VecDeque};
-use std::io::{BufRead, BufReader, Write};
-use std::process::{Child, ChildStdin, Command, Stdio};
-use std::sync::mpsc;
-use std::time::Instant;
-use vcommon::{load_known_findings, run_seed, verif_dir, KnownFinding};
+use vcommon::core::Prop;
 
 fn prop_by_id(id: &str) -> Option<Box<dyn Prop>> {
     match id {
@@ -31,507 +24,8 @@ fn prop_by_id(id: &str) -> Option<Box<dyn Prop>> {
     }
 }
 
-fn kf_match<'a>(kfs: &'a [KnownFinding], v: &Violation) -> Option<&'a KnownFinding> {
-    let toks: Vec<&str> = v.signature.split_whitespace().collect();
-    kfs.iter().find(|k| {
-        k.property == v.property
-            && k.oracle == v.oracle
-            && k.signature.split_whitespace().all(|t| toks.contains(&t))
-    })
-}
-
-fn harness_error(msg: &str) -> ! {
-    eprintln!("HARNESS-ERROR: {msg}");
-    std::process::exit(2);
-}
-
 fn main() {
-    let args: Vec<String> = std::env::args().collect();
-    if args.len() < 2 {
-        harness_error("usage: worlda check|worker|replay ...");
-    }
-    loader::install_panic_hook();
     // All simulation work happens on a thread with a large stack so that deep
     // (but bounded) recursion in rsass is not mistaken for non-termination.
-    let h = std::thread::Builder::new()
-        .stack_size(1 << 30)
-        .spawn(move || match args[1].as_str() {
-            "check" => cmd_check(&args[2..]),
-            "worker" => cmd_worker(&args[2..]),
-            "replay" => cmd_replay(&args[2..]),
-            "one" => cmd_one(&args[2..]),
-            _ => harness_error("unknown subcommand"),
-        })
-        .unwrap();
-    // A panic that reaches this point happened in harness code (panics inside
-    // a compilation are caught in run_job): that is a harness error, exit 2.
-    let code = match h.join() {
-        Ok(c) => c,
-        Err(_) => {
-            eprintln!("HARNESS-ERROR: harness panicked: {}", loader::last_panic());
-            println!("H harness panicked: {}", loader::last_panic());
-            2
-        }
-    };
-    std::process::exit(code);
-}
-
-fn opt<'a>(args: &'a [String], name: &str) -> Option<&'a str> {
-    args.iter().position(|a| a == name).and_then(|i| args.get(i + 1)).map(String::as_str)
-}
-
-fn parse_tier(s: &str) -> Tier {
-    match s {
-        "thorough" => Tier::Thorough,
-        _ => Tier::Quick,
-    }
-}
-
-// ---------------------------------------------------------------- worker
-
-fn cmd_worker(args: &[String]) -> i32 {
-    let prop = prop_by_id(&args[0]).unwrap_or_else(|| harness_error("unknown property"));
-    let tier = parse_tier(&args[1]);
-    let seed: u64 = args[2].parse().unwrap();
-    let kfs = load_known_findings(&format!("{}/known_findings.json", verif_dir()))
-        .unwrap_or_else(|e| harness_error(&e));
-    let stdin = std::io::stdin();
-    let stdout = std::io::stdout();
-    let mut minimised = 0u32;
-    for line in stdin.lock().lines() {
-        let line = line.unwrap();
-        let mut it = line.split_whitespace();
-        if it.next() != Some("B") {
-            continue;
-        }
-        let start: u64 = it.next().unwrap().parse().unwrap();
-        let count: u64 = it.next().unwrap().parse().unwrap();
-        let mut stats = Stats::default();
-        for i in start..start + count {
-            {
-                let mut o = stdout.lock();
-                writeln!(o, "R {i}").unwrap();
-                o.flush().unwrap();
-            }
-            let s = run_seed(seed, prop.id(), i);
-            for mut v in prop.run(s, i, tier, &mut stats) {
-                v.seed = s;
-                v.index = i;
-                stats.inc("violations_raw");
-                let v = if minimised < 12 {
-                    minimised += 1;
-                    minimise_class(prop.as_ref(), &v, &kfs)
-                } else {
-                    v
-                };
-                let mut o = stdout.lock();
-                writeln!(o, "V {}", serde_json::to_string(&v).unwrap()).unwrap();
-                o.flush().unwrap();
-            }
-        }
-        let mut o = stdout.lock();
-        writeln!(o, "S {}", serde_json::to_string(&stats.to_json()).unwrap()).unwrap();
-        o.flush().unwrap();
-    }
-    0
-}
-
-/// Shrink while the same oracle fires *and* the known-finding class stays the same.
-fn minimise_class(p: &dyn Prop, v: &Violation, kfs: &[KnownFinding]) -> Violation {
-    let class = kf_match(kfs, v).map(|k| k.id.clone());
-    let mut best = v.clone();
-    let mut runs = 0u64;
-    let mut progress = true;
-    let mut scratch = Stats::default();
-    while progress && runs < 300 {
-        progress = false;
-        for cand in p.shrink_candidates(&best.case) {
-            if runs >= 300 {
-                break;
-            }
-            runs += 1;
-            let vs = p.replay(&cand, &mut scratch);
-            if let Some(mut nv) = vs
-                .into_iter()
-                .find(|nv| nv.oracle == best.oracle && kf_match(kfs, nv).map(|k| k.id.clone()) == class)
-            {
-                nv.seed = best.seed;
-                nv.index = best.index;
-                best = nv;
-                progress = true;
-                break;
-            }
-        }
-    }
-    best.minimised = true;
-    best.shrink_steps = runs;
-    best
-}
-
-/// Debug aid: run a single index in-process and print what happened.
-fn cmd_one(args: &[String]) -> i32 {
-    let prop = prop_by_id(&args[0]).unwrap_or_else(|| harness_error("unknown property"));
-    let tier = parse_tier(opt(args, "--tier").unwrap_or("quick"));
-    let seed = vcommon::env_seed();
-    let i: u64 = args[1].parse().unwrap();
-    let mut stats = Stats::default();
-    let vs = prop.run(run_seed(seed, prop.id(), i), i, tier, &mut stats);
-    println!("{}", serde_json::to_string_pretty(&stats.to_json()).unwrap());
-    for v in vs {
-        println!("VIOLATION oracle={} sig=[{}] {}", v.oracle, v.signature, v.detail);
-    }
-    0
-}
-
-// ---------------------------------------------------------------- replay
-
-fn cmd_replay(args: &[String]) -> i32 {
-    let path = &args[0];
-    let text = std::fs::read_to_string(path).unwrap_or_else(|e| harness_error(&format!("{path}: {e}")));
-    let j: Json = serde_json::from_str(&text).unwrap_or_else(|e| harness_error(&format!("{path}: {e}")));
-    let v: Violation =
-        serde_json::from_value(j.clone()).unwrap_or_else(|e| harness_error(&format!("{path}: {e}")));
-    let prop = prop_by_id(&v.property).unwrap_or_else(|| harness_error("unknown property in replay file"));
-    let mut stats = Stats::default();
-    println!("REPLAY property={} oracle={} seed={}", v.property, v.oracle, vcommon::hex(v.seed));
-    let vs = prop.replay(&v.case, &mut stats);
-    if let Some(nv) = vs.iter().find(|nv| nv.oracle == v.oracle) {
-        println!("REPRODUCED oracle={} signature=[{}]", nv.oracle, nv.signature);
-        println!("  {}", nv.detail);
-        let same_hist = nv.case["history_digest"] == v.case["history_digest"];
-        println!("  history digest identical: {same_hist}");
-        println!("VIOLATION property={} replay={}", v.property, path);
-        1
-    } else if let Some(nv) = vs.first() {
-        println!("DIFFERENT oracle={} (file says {})", nv.oracle, v.oracle);
-        println!("VIOLATION property={} replay={}", v.property, path);
-        1
-    } else {
-        println!("NOT-REPRODUCED (the property holds on this case with the current tree)");
-        0
-    }
-}
-
-// ---------------------------------------------------------------- supervisor
-
-struct Worker {
-    child: Child,
-    stdin: Option<ChildStdin>,
-    batch: Option<(u64, u64)>,
-    last: Option<u64>,
-}
-
-enum Msg {
-    Line(usize, String),
-    Eof(usize),
-}
-
-fn spawn_worker(id: usize, prop: &str, tier: Tier, seed: u64, tx: &mpsc::Sender<Msg>) -> Worker {
-    let exe = std::env::current_exe().unwrap();
-    let mut child = Command::new(exe)
-        .args(["worker", prop, tier.name(), &seed.to_string()])
-        .stdin(Stdio::piped())
-        .stdout(Stdio::piped())
-        .stderr(Stdio::null())
-        .spawn()
-        .unwrap_or_else(|e| harness_error(&format!("spawn worker: {e}")));
-    let stdout = child.stdout.take().unwrap();
-    let tx = tx.clone();
-    std::thread::spawn(move || {
-        let r = BufReader::with_capacity(1 << 20, stdout);
-        for line in r.lines() {
-            match line {
-                Ok(l) => {
-                    if tx.send(Msg::Line(id, l)).is_err() {
-                        return;
-                    }
-                }
-                Err(_) => break,
-            }
-        }
-        let _ = tx.send(Msg::Eof(id));
-    });
-    let stdin = child.stdin.take();
-    Worker { child, stdin, batch: None, last: None }
-}
-
-fn cmd_check(args: &[String]) -> i32 {
-    let t0 = Instant::now();
-    let id = args[0].clone();
-    let prop = prop_by_id(&id).unwrap_or_else(|| harness_error("unknown property"));
-    let tier = parse_tier(opt(args, "--tier").unwrap_or("quick"));
-    let seed = vcommon::env_seed();
-    let nworkers: usize = opt(args, "--workers")
-        .and_then(|s| s.parse().ok())
-        .unwrap_or_else(|| std::thread::available_parallelism().map_or(8, |n| n.get()));
-    let total: u64 = opt(args, "--runs").and_then(|s| s.parse().ok()).unwrap_or_else(|| prop.runs(tier));
-    let deadline_s: u64 = opt(args, "--deadline").and_then(|s| s.parse().ok()).unwrap_or(match tier {
-        Tier::Quick => 240,
-        Tier::Thorough => 3000,
-    });
-    let kfs = load_known_findings(&format!("{}/known_findings.json", verif_dir()))
-        .unwrap_or_else(|e| harness_error(&e));
-    println!("SEED {seed} property={id} tier={} runs={total} workers={nworkers}", tier.name());
-    // replay files of earlier runs of this check are stale by definition
-    if let Ok(rd) = std::fs::read_dir(format!("{}/replays", verif_dir())) {
-        for e in rd.flatten() {
-            if e.file_name().to_string_lossy().starts_with(&format!("{id}-")) {
-                let _ = std::fs::remove_file(e.path());
-            }
-        }
-    }
-
-    let bs = (total / (nworkers as u64 * 8)).clamp(1, 5000);
-    let mut queue: VecDeque<(u64, u64)> = VecDeque::new();
-    let mut s = 0;
-    while s < total {
-        let c = bs.min(total - s);
-        queue.push_back((s, c));
-        s += c;
-    }
-    let (tx, rx) = mpsc::channel::<Msg>();
-    let mut workers: BTreeMap<usize, Worker> = BTreeMap::new();
-    let mut next_id = 0usize;
-    let mut stats = Stats::default();
-    let mut raw: Vec<Violation> = vec![];
-    let mut truncated = false;
-    let mut aborts = 0u32;
-    let mut harness_msg: Option<String> = None;
-
-    let assign = |w: &mut Worker, queue: &mut VecDeque<(u64, u64)>, stop: bool| {
-        if stop {
-            w.stdin = None;
-            w.batch = None;
-            return;
-        }
-        if let Some((st, c)) = queue.pop_front() {
-            w.batch = Some((st, c));
-            w.last = None;
-            if let Some(si) = w.stdin.as_mut() {
-                let _ = writeln!(si, "B {st} {c}");
-                let _ = si.flush();
-            }
-        } else {
-            w.stdin = None; // EOF ends the worker
-            w.batch = None;
-        }
-    };
-    for _ in 0..nworkers.min(queue.len().max(1)) {
-        let mut w = spawn_worker(next_id, &id, tier, seed, &tx);
-        assign(&mut w, &mut queue, false);
-        workers.insert(next_id, w);
-        next_id += 1;
-    }
-    while !workers.is_empty() {
-        let msg = rx.recv().unwrap();
-        if !truncated && t0.elapsed().as_secs() > deadline_s {
-            truncated = true;
-            queue.clear();
-        }
-        match msg {
-            Msg::Line(wid, line) => {
-                let Some(w) = workers.get_mut(&wid) else { continue };
-                if let Some(rest) = line.strip_prefix("H ") {
-                    harness_msg = Some(rest.to_string());
-                } else if let Some(rest) = line.strip_prefix("R ") {
-                    w.last = rest.parse().ok();
-                } else if let Some(rest) = line.strip_prefix("V ") {
-                    match serde_json::from_str::<Violation>(rest) {
-                        Ok(v) => raw.push(v),
-                        Err(e) => harness_error(&format!("bad V line: {e}")),
-                    }
-                } else if let Some(rest) = line.strip_prefix("S ") {
-                    let j: Json = serde_json::from_str(rest).unwrap_or_else(|e| harness_error(&format!("bad S line: {e}")));
-                    stats.merge_json(&j, 5);
-                    assign(w, &mut queue, truncated);
-                }
-            }
-            Msg::Eof(wid) => {
-                let Some(mut w) = workers.remove(&wid) else { continue };
-                let status = w.child.wait().ok();
-                if status.and_then(|s| s.code()) == Some(2) {
-                    harness_error(&format!(
-                        "a worker reported a harness error during run index {:?}: {}",
-                        w.last,
-                        harness_msg.clone().unwrap_or_default()
-                    ));
-                }
-                if let Some((st, c)) = w.batch {
-                    // died inside a batch: the run announced last is the culprit
-                    aborts += 1;
-                    let i = w.last.unwrap_or(st);
-                    let s = run_seed(seed, &id, i);
-                    raw.push(Violation {
-                        property: id.clone(),
-                        oracle: "abort".into(),
-                        signature: "abort=1".into(),
-                        detail: format!(
-                            "worker process died ({status:?}) during run index {i} (stack overflow or abort inside the compilation)"
-                        ),
-                        case: json!({"seeded": true, "seed": s, "index": i, "tier": tier.name()}),
-                        seed: s,
-                        index: i,
-                        minimised: false,
-                        shrink_steps: 0,
-                    });
-                    if i > st {
-                        queue.push_front((st, i - st));
-                    }
-                    if i + 1 < st + c {
-                        queue.push_front((i + 1, st + c - i - 1));
-                    }
-                    if aborts > 50 {
-                        queue.clear();
-                        truncated = true;
-                    }
-                    let mut nw = spawn_worker(next_id, &id, tier, seed, &tx);
-                    assign(&mut nw, &mut queue, truncated);
-                    workers.insert(next_id, nw);
-                    next_id += 1;
-                }
-            }
-        }
-    }
-    drop(tx);
-
-    // ---- classify violations
-    let mut known_hit: BTreeMap<String, (String, u64)> = BTreeMap::new();
-    let mut novel: Vec<Violation> = vec![];
-    for v in raw {
-        if let Some(k) = kf_match(&kfs, &v) {
-            known_hit.entry(k.id.clone()).or_insert((k.description.clone(), 0)).1 += 1;
-        } else {
-            novel.push(v);
-        }
-    }
-    for (kid, (desc, n)) in &known_hit {
-        println!("KNOWN-FINDING: property={id} {kid}: {desc} (hit {n} times)");
-    }
-    {
-        let mut classes: BTreeMap<(String, String), u64> = BTreeMap::new();
-        for v in &novel {
-            *classes.entry((v.oracle.clone(), v.signature.clone())).or_insert(0) += 1;
-        }
-        let mut cl: Vec<_> = classes.into_iter().collect();
-        cl.sort_by_key(|(_, n)| std::cmp::Reverse(*n));
-        for ((o, s), n) in cl.iter().take(25) {
-            println!("# class x{n}: oracle={o} signature=[{s}]");
-        }
-    }
-    // distinct classes first, minimised ones first
-    novel.sort_by_key(|v| (!v.minimised, v.oracle.clone(), v.case.to_string().len()));
-    let mut reported: Vec<(String, String)> = vec![];
-    let mut printed = 0;
-    let replay_dir = format!("{}/replays", verif_dir());
-    for v in &novel {
-        let class = (v.oracle.clone(), v.signature.clone());
-        if reported.contains(&class) || printed >= 5 {
-            continue;
-        }
-        reported.push(class);
-        let path = format!(
-            "{replay_dir}/{id}-{}-{}-{:04x}.json",
-            v.oracle,
-            vcommon::hex(v.seed),
-            vcommon::fnv64(v.signature.as_bytes()) & 0xffff
-        );
-        let j = serde_json::to_value(v).unwrap();
-        if let Err(e) = vcommon::write_json(&path, &j) {
-            harness_error(&format!("{path}: {e}"));
-        }
-        // replay in a fresh process; it must fail the same way
-        let confirmed = if v.oracle == "abort" {
-            true
-        } else {
-            let out = Command::new(std::env::current_exe().unwrap())
-                .args(["replay", &path])
-                .output()
-                .unwrap_or_else(|e| harness_error(&format!("replay: {e}")));
-            String::from_utf8_lossy(&out.stdout).contains("REPRODUCED oracle=")
-        };
-        println!(
-            "# {} oracle={} signature=[{}] minimised={} replay_confirmed={confirmed}",
-            id, v.oracle, v.signature, v.minimised
-        );
-        println!("#   {}", v.detail.replace('\n', " | "));
-        println!("VIOLATION property={id} replay={path}");
-        printed += 1;
-    }
-
-    // ---- sanity of the exploration itself
-    let sanity = if truncated { vec![] } else { prop.sanity(&stats, tier) };
-
-    // ---- evidence
-    let wall = t0.elapsed().as_secs_f64();
-    let evals = stats.c.get("compilations").max(stats.c.get("runs"));
-    let runs = stats.c.get("runs");
-    let mut fired = serde_json::Map::new();
-    let mut probes = serde_json::Map::new();
-    let mut strata = serde_json::Map::new();
-    let mut other = serde_json::Map::new();
-    for (k, v) in &stats.c.0 {
-        if let Some(r) = k.strip_prefix("fired:") {
-            fired.insert(r.into(), json!(v));
-        } else if let Some(r) = k.strip_prefix("probe:") {
-            probes.insert(r.into(), json!(v));
-        } else if let Some(r) = k.strip_prefix("stratum:") {
-            strata.insert(r.into(), json!(v));
-        } else {
-            other.insert(k.clone(), json!(v));
-        }
-    }
-    let evidence = json!({
-        "property_id": id,
-        "tier": tier.name(),
-        "seed": seed,
-        "level": prop.level(),
-        "wall_s": wall,
-        "violations": novel.len(),
-        "coverage": {
-            "evaluations": evals,
-            "distinct_nontrivial": stats.digests.len(),
-            "rule": prop.rule(),
-            "samples": stats.samples,
-            "simulated_runs": runs,
-            "runs_per_hour": if wall > 0.0 { (runs as f64 / wall * 3600.0) as u64 } else { 0 },
-            "seeds_per_hour": if wall > 0.0 { (runs as f64 / wall * 3600.0) as u64 } else { 0 },
-            "logical_steps": stats.c.get("loader_events"),
-            "simulated_time": Json::Null,
-            "simulated_time_note": "rsass has no clock, timer or deadline; time is reported as logical steps (loader events)",
-            "fault_kinds_fired": fired,
-            "probes": probes,
-            "strata": strata,
-            "counters": other,
-            "known_findings_hit": known_hit.iter().map(|(k, (_, n))| json!({"id": k, "hits": n})).collect::<Vec<_>>(),
-            "worker_aborts": aborts,
-            "truncated_by_deadline": truncated,
-            "components": {
-                "real": ["rsass parser, evaluator, Context (lock set), CssData (module cache), output", "std::sync primitives", "arc_swap, fastrand, nom"],
-                "stub": ["Loader implementation: SimLoader over SimFs (in-memory POSIX-like tree) with fault layer"],
-            },
-            "exhaustive": false,
-        },
-        "assumptions": prop.assumptions(),
-    });
-    let epath = format!("{}/evidence/{id}.json", verif_dir());
-    if let Err(e) = vcommon::write_json(&epath, &evidence) {
-        harness_error(&format!("{epath}: {e}"));
-    }
-    println!(
-        "DONE property={id} runs={runs} compilations={} distinct={} violations={} known={} wall={wall:.1}s",
-        stats.c.get("compilations"),
-        stats.digests.len(),
-        novel.len(),
-        known_hit.len()
-    );
-    if !novel.is_empty() {
-        return 1;
-    }
-    if !sanity.is_empty() {
-        for s in sanity {
-            eprintln!("HARNESS-ERROR: {s}");
-        }
-        return 2;
-    }
-    0
+    vcommon::driver::run_main(prop_by_id, 1 << 30)
 }
